@@ -120,17 +120,28 @@ def one_setup(chk, drv, it, stats):
     nv = rng.randint(max(vdeg + 1, 6 if cubic_uniform else 2), 10)
     rdeg = rng.choice([1, 2, 3])
     nr = max(nr, rdeg + 1)
+    # half of the set-ups with profile constants away from their defaults (by default the electron and the ion temperature
+    # profiles coincide, so a mix-up of the two is invisible); the equilibrium of the property is the ION Maxwellian
+    consts = {}
+    if rng.random() < 0.5:
+        consts = {'CTi': rng.uniform(0.6, 1.4), 'kTi': rng.uniform(0.05, 0.4), 'deltaRTi': rng.uniform(0.8, 3.0),
+                  'CTe': rng.uniform(0.6, 1.4), 'kTe': rng.uniform(0.05, 0.4), 'deltaRTe': rng.uniform(0.8, 3.0),
+                  'kN0': rng.uniform(0.02, 0.1), 'deltaRN0': rng.uniform(1.5, 4.0)}
     setup = H.make_setup([nr, nth, nz, nv], [rdeg, min(3, nth - 1) or 1, min(3, nz - 1) or 1, vdeg], uniform_flag,
-                         vrange=rng.choice([(-7.32, 7.32), (0.0, 10.0), (-3.0, 5.0)]))
+                         vrange=rng.choice([(-7.32, 7.32), (0.0, 10.0), (-3.0, 5.0)]), **consts)
     setup['quad_degree'] = rng.choice([3, 6])
     perturbed = rng.random() < 0.7
     cplx = rng.random() < 0.5
-    kind = rng.choice(['random', 'random', 'near_eq', 'equilibrium', 'poly'])
+    kind = rng.choice(['random', 'random', 'near_eq', 'equilibrium', 'poly', 'sparse'])
     nprng = np.random.RandomState(rng.randrange(1 << 30))
     feq_tab = feq_oracle(setup)
     v = setup['eta'][3]
     if kind == 'random':
         G = nprng.uniform(-2, 2, size=(nr, nth, nz, nv))
+    elif kind == 'sparse':
+        # exact zeros at many velocity points, whole (r, theta, z) lines identically zero (empty phase space, cut-off distributions)
+        G = nprng.uniform(-2, 2, size=(nr, nth, nz, nv)) * (nprng.uniform(size=(nr, nth, nz, nv)) < 0.4)
+        G[nprng.uniform(size=(nr, nth, nz)) < 0.25] = 0.0
     elif kind == 'near_eq':
         G = feq_tab[:, None, None, :] * (1 + 1e-3 * nprng.uniform(-1, 1, size=(nr, nth, nz, nv)))
     elif kind == 'equilibrium':
@@ -140,7 +151,7 @@ def one_setup(chk, drv, it, stats):
         G = sum(co[..., k:k + 1] * v[None, None, None, :] ** k for k in range(vdeg + 1))
     W = exact_tools(setup)
     grids = proc_grids(chk.n(6, 6), nr, nz)
-    case0 = {'npts': [nr, nth, nz, nv], 'vdeg': vdeg, 'uniform_flag': uniform_flag, 'perturbed': perturbed,
+    case0 = {'npts': [nr, nth, nz, nv], 'vdeg': vdeg, 'uniform_flag': uniform_flag, 'perturbed': perturbed, 'constants': consts,
              'complex_rho': cplx, 'kind': kind, 'quad_degree': setup['quad_degree']}
     serial = None
     # exact integral at every global point (oracle)
